@@ -1,6 +1,7 @@
 package raft
 
 import (
+	"math"
 	"time"
 )
 
@@ -72,6 +73,11 @@ type Operation struct {
 	// The commit index at the time the operation was submitted. Only applicable to
 	// linearizable and lease-based read-only operations.
 	readIndex uint64
+
+	// The first round of heartbeats that may confirm leadership for this operation,
+	// that is, the first one started after the operation was submitted. Only applicable
+	// to linearizable read-only operations.
+	verifyRound uint64
 }
 
 type operationManager struct {
@@ -98,8 +104,16 @@ func newOperationManager(leaseDuration time.Duration) *operationManager {
 }
 
 func (r *operationManager) markAsVerified() {
+	r.markAsVerifiedBy(math.MaxUint64)
+}
+
+// markAsVerifiedBy marks the pending read-only operations that may be confirmed by
+// the provided round of heartbeats as verified.
+func (r *operationManager) markAsVerifiedBy(round uint64) {
 	for operation := range r.pendingReadOnly {
-		operation.quorumVerified = true
+		if operation.verifyRound <= round {
+			operation.quorumVerified = true
+		}
 	}
 	r.shouldVerifyQuorum = true
 }
